@@ -4,6 +4,7 @@ mod dynafed;
 mod fmr;
 mod issuance;
 mod pools;
+mod psetview;
 mod sha256c;
 mod tok;
 mod util;
@@ -33,6 +34,9 @@ fn main() {
         ("issuance", "json") => issuance::json_contract(rest, &mut out),
         ("checksum", "lfsr") => checksum::lfsr(rest, &mut out),
         ("checksum", "corrupt") => checksum::corrupt(rest, &mut out),
+        ("psetview", "locktime") => psetview::locktime(rest, &mut out),
+        ("psetview", "history") => psetview::history(rest, &mut out),
+        ("psetview", "record") => psetview::record(rest, &mut out),
         ("dynafed", "record") => dynafed::record(rest, &mut out),
         (m, c) => {
             eprintln!("unknown command {} {}", m, c);
